@@ -21,4 +21,7 @@ func checkC17(c *Ctx) {
 	c19ToBytes(c)
 	c19Same(c)
 	c19Rule = "C19-K1"
+	// DomainSearch() is what the label decoder makes of option 119: its state machine (zero = end of name, top bits =
+	// pointer, 14-bit offset from two octets, start at offset 0) is judged here too (shared C19-K2/K3)
+	c19Decoder(c)
 }
